@@ -1,6 +1,9 @@
 import Driver.Proto
 import Driver.Enc
+import Driver.Send
+import Driver.Hist
 import Uds.Model.DecodeDtc
+import Uds.Model.Entry
 namespace Drv.Dec
 open Uds Uds.Model Proto Drv.Enc
 
@@ -55,35 +58,64 @@ def parseExt (s : String) : Except String ExtSize :=
       | _ => throw s!"bad ext {s}"
     pure (.dict l)
 
-def run (cmd : String) (a : Args) : Except String String := do
-  let d ← getHex a "d"
+/-- the client-side interpretation + echo checks of the family named by `e=`, as a function from reply data to a printed outcome -/
+def postFor (a : Args) : Except String (Bytes → Py String) := do
   let e ← getStr a "e"
-  -- `Response.from_payload`: a positive response of a service whose response carries data needs at least one data byte
-  -- (`send_request` raises InvalidResponseException before anything is interpreted)
-  let noData := e == "simple" && (((get a "entry").getD "").startsWith "te/" || ((get a "entry").getD "").startsWith "cl/")
-  if d.isEmpty && !noData then pure "invalid" else
   match e with
   | "simple" =>
     let ent ← Drv.Hist.parseEntry (← getStr a "entry")
-    pure (showPyS (simpleClient (← getNat a "std") ent d))
+    let std ← getNat a "std"
+    pure fun d => (simpleClient std ent d).map showSData
   | "rdbi" =>
     let cfg ← parseDidCfg a
     let dids ← parseIntList (← getStr a "dids")
-    pure (showPyS (rdbiClient cfg (← getBool a "tol") (dids.map Int.toNat) d))
-  | "wdbi" => pure (showPyS (wdbiClient (← getNat a "did") d))
-  | "ddd" => pure (showPyS (dddClient (← getNat a "sf") (← getOptNat a "did") (← getBool a "strict") d))
-  | "readmem" => pure (showPyS (readMemClient (← getNat a "size") (← getBool a "tol") d))
-  | "xfer" => pure (showPyS (xferInterpret d))
-  | "io" => pure (showPyS (ioClient (← parseIoCfg a) (← getNat a "did") (← getOptNat a "cp") (← getBool a "tol") d))
-  | "rft" => pure (showPyS (rftClient (← getNat a "moop") (← getOptNat a "dfi") (← getBool a "tol") d))
-  | "auth" => pure (showPyS (authClient (← getNat a "task") d))
+    let tol ← getBool a "tol"
+    pure fun d => (rdbiClient cfg tol (dids.map Int.toNat) d).map showSData
+  | "wdbi" => let did ← getNat a "did"; pure fun d => (wdbiClient did d).map showSData
+  | "ddd" =>
+    let sf ← getNat a "sf"; let did ← getOptNat a "did"; let strict ← getBool a "strict"
+    pure fun d => (dddClient sf did strict d).map showSData
+  | "readmem" => let size ← getNat a "size"; let tol ← getBool a "tol"; pure fun d => (readMemClient size tol d).map showSData
+  | "xfer" => pure fun d => (xferInterpret d).map showSData
+  | "io" =>
+    let cfg ← parseIoCfg a; let did ← getNat a "did"; let cp ← getOptNat a "cp"; let tol ← getBool a "tol"
+    pure fun d => (ioClient cfg did cp tol d).map showSData
+  | "rft" =>
+    let moop ← getNat a "moop"; let dfi ← getOptNat a "dfi"; let tol ← getBool a "tol"
+    pure fun d => (rftClient moop dfi tol d).map showSData
+  | "auth" => let task ← getNat a "task"; pure fun d => (authClient task d).map showSData
   | "dtc" =>
     let dids ← if (← getStr a "cfg") == "none" then pure none else do let c ← parseDidCfg a; pure (some c)
     let c : DtcCfg := { std := ← getNat a "std", tol := ← getBool a "tol", ign := ← getBool a "ign", didSize := ← getNat a "k", dids := dids,
                         ext := ← parseExt (← getStr a "ext") }
     let q : DtcReqCtx := { sf := ← getInt a "sf", dtc := ← getOptNat a "dtc", snapRec := ← getOptNat a "snap", extRec := ← getOptNat a "xrec",
                            memSel := ← getOptNat a "ms", fgid := ← getOptNat a "fg" }
-    pure (match dtcClient c q d with | .ok r => "ok " ++ showDtc r | .error e => e.tag)
+    pure fun d => (dtcClient c q d).map showDtc
   | _ => throw s!"unknown decoder {e}"
+
+def showCallOut : CallOut String → String
+  | .ret none => "none"
+  | .ret (some v) => "ok " ++ v
+  | .exc e => e.tag
+
+def run (cmd : String) (a : Args) : Except String String := do
+  if cmd == "callw" then
+    -- the whole undecorated client method: the request as transmitted, send_request over the arrivals, the family's interpretation (`callWith`)
+    let post ← postFor a
+    let cfg ← Drv.Send.parseCfg a
+    let st ← Drv.Send.parseState a
+    let s ← Drv.Msg.svcByName (← getStr a "svc")
+    let req : Request := { service := some s, subfunction := ← getOptNat a "sf", spr := false, data := ← getOptHex a "data" }
+    let arr ← Drv.Send.parseArrivals (← getStr a "arr")
+    pure s!"log={Drv.Send.showLog (sendRequest cfg st req none arr).log} out={showCallOut (callWith cfg st req post arr)}"
+  else
+  let d ← getHex a "d"
+  let e ← getStr a "e"
+  -- `Response.from_payload`: a positive response of a service whose response carries data needs at least one data byte
+  -- (`send_request` raises InvalidResponseException before anything is interpreted)
+  let noData := e == "simple" && (((get a "entry").getD "").startsWith "te/" || ((get a "entry").getD "").startsWith "cl/")
+  if d.isEmpty && !noData then pure "invalid" else
+  let post ← postFor a
+  pure (match post d with | .ok v => "ok " ++ v | .error e => e.tag)
 
 end Drv.Dec
